@@ -9,6 +9,9 @@ monitor (harness/fsobs.py) is the oracle on a break.
 import interposer
 interposer.reexec_with_preload()
 
+import os  # noqa: E402
+import shutil  # noqa: E402
+
 import fsobs  # noqa: E402
 import scenarios  # noqa: E402
 from common import App, permissive_rights  # noqa: E402
@@ -86,6 +89,64 @@ def whole_n(n):
               "items": [fsobs.chars(u + ".ics") for u in uids], "missing": 1, "exists": False}], 201)
 
 
+def after_overlapping_reads_level(ctx, rec):
+    """durability is a property of every acknowledged write, whatever the process served before: several threads read two calendars
+    whose item caches are missing (every read rebuilds and writes cache entries, under the shared lock, at the same time); afterwards a
+    PUT, a MKCALENDAR and a DELETE are observed like any other request - data synced before it becomes visible, directories synced"""
+    import threading
+    conf = {"storage": {"_filesystem_fsync": "True"}, "auth": {"type": "none"}}
+    kinds = dict(scenarios.kinds())
+    for rnd in range(ctx.n(2, 10)):
+        with App(dict(conf, rights=permissive_rights())) as app:
+            scenarios.build_store(app, 0)
+            login = scenarios.LOGIN
+            user = login.split(":")[0]
+            cals = []
+            for c in ("ra", "rb", "rc"):
+                app.request("MKCALENDAR", "/%s/%s/" % (user, c), login=login)
+                for i in range(12):
+                    app.request("PUT", "/%s/%s/e%d.ics" % (user, c, i), scenarios.ev("%s%d" % (c, i)), login=login)
+                cals.append("/%s/%s/" % (user, c))
+            body = '<?xml version="1.0"?><D:propfind xmlns:D="DAV:"><D:prop><D:getetag/></D:prop></D:propfind>'
+            for _ in range(3):
+                for root, dirs, _f in os.walk(app.folder):
+                    for d in list(dirs):
+                        if d == ".Radicale.cache":
+                            shutil.rmtree(os.path.join(root, d, "item"), ignore_errors=True)
+                go = threading.Barrier(6)
+                errs = []
+
+                def reader(k):
+                    try:
+                        go.wait(10)
+                        st = app.request("PROPFIND", cals[k % len(cals)], body, login=login, HTTP_DEPTH="1")[0]
+                        if st != 207:
+                            errs.append(st)
+                    except Exception as e:      # noqa
+                        errs.append(repr(e))
+                ts = [threading.Thread(target=reader, args=(k,)) for k in range(6)]
+                for t in ts:
+                    t.start()
+                for t in ts:
+                    t.join(60)
+            for name in ("put_new", "mkcalendar", "delete_item"):
+                if name not in kinds:
+                    continue
+                method, path, pbody, env, klogin, calls, expect = kinds[name]
+                st, ent, muts = observe(app, rec, method, path, pbody, env, klogin)
+                proj = fsobs.data_projection(ent, app.folder)
+                case = {"request": name, "after": "three rounds of six overlapping PROPFIND Depth 1 on calendars without item cache", "round": rnd,
+                        "reader_problems": errs[:3]}
+                ctx.case("%s|after-overlapping-reads" % name, sample=dict(case, observed=[(o["op"], "/".join(o["p"])) for o in proj][:12]),
+                         key=["overlap", rnd, name], nontrivial=len(proj) > 0)
+                if st != expect:
+                    continue
+                bad = fsobs.py_sync_monitor(proj)
+                if bad:
+                    ctx.violation("sync ordering violated while serving %s after overlapping reads: %s" % (name, bad[0]), dict(case, trace=proj),
+                                  "synced before visible", bad)
+
+
 def run(ctx):
     ctx.extra["rule"] = ("every modifying request type (20 kinds incl. whole-collection uploads of n items, nested deletes, first login) x "
                          "store shapes x fsync on/off x cache layouts; a case is the (request, configuration, shape) triple; non-trivial = "
@@ -118,5 +179,6 @@ def run(ctx):
             ns = [0, 1, 5] if ctx.tier == "quick" else [0, 1, 2, 7, 20, 50]
             for n in ns:
                 one(ctx, rec, "put_whole_%d_items" % n, whole_n(n), conf, 0, tag)
+        after_overlapping_reads_level(ctx, rec)
     finally:
         rec.close()
